@@ -256,3 +256,26 @@ H("C17", file="cli/config.rs", name="c17_merge_3", timeout=1800, expect_s=380,
   oracle="scalar = last document that sets it; rewrite = concatenation in document order")
 H("C17", file="cli/extract.rs", name="c17_rule_fold_3", tier="thorough", timeout=3000, expect_s=900,
   functions=["Extractor::extract"], bound="3 rules, otherwise as c17_rule_fold_2", oracle="same")
+
+H("C03", file="core/book_keeping.rs", name="c03_deduce_kernel", timeout=1500, expect_s=190, map_cap=2,
+  functions=["Amount += PostingAmount (fold of balancing values)", "Amount::negate", "Balance::add_amount"],
+  bound="sum of the other postings v X [+ w Y at scale 2], omitted account pre-balance, bystander account; 16-bit signed; symbolic map order; unwind 6",
+  models=[DEC, MAPND],
+  oracle="deduced == -(sum) per commodity; omitted account moves by exactly that; bystander unchanged "
+         "(whole add_transaction does not fit: 1.7M steps / >30 GB for two postings)")
+
+# --------------------------------------------------------------------------- C12
+prop("C12", title="Aliases are transparent; alias conflicts are rejected",
+     level_text="Bounded model checking of the interning table every account and commodity name goes through: for EVERY sequence of 3 "
+                "operations (4 in thorough) drawn from ensure / insert_canonical / insert_alias(to a canonical handed out earlier) / resolve "
+                "over a 3-name pool, each return value and error equals a reference alias table; alias and canonical name yield the SAME "
+                "interned value (pointer identity, which is what balances are keyed by), a name is never interned twice, and the two conflict "
+                "declarations are rejected. All orders of declaration versus first use within the bound are covered. Feeding a whole ledger "
+                "with aliases through add_transaction is outside (does not fit the solver).",
+     level_note="Trusted: Kani/CBMC; verif_map (keys compared by content, as the real map), bump allocator stub.")
+H("C12", file="core/intern.rs", name="c12_intern_sequence_3", timeout=900, expect_s=80,
+  functions=["InternStore::ensure", "InternStore::insert_canonical", "InternStore::insert_alias", "InternStore::resolve", "InternStore::get"],
+  bound="every sequence of 3 operations x 3 names (1-byte names a, b, c) x alias target; unwind 6", models=[MAP, BUMP],
+  oracle="reference table name -> Unregistered | Canonical | Alias(c): return values, errors, pointer identity of canonical values")
+H("C12", file="core/intern.rs", name="c12_intern_sequence_4", tier="thorough", timeout=3000, expect_s=600,
+  functions=["InternStore::*"], bound="every sequence of 4 operations", models=[MAP, BUMP], oracle="same")
